@@ -98,6 +98,7 @@ FAM = {
         'M3': ((), lambda: MoveAxisOperator(0, 2, in_structure=S(2, 3, 2)), ''),
         'M3b': ((), lambda: MoveAxisOperator((0, 1), (2, 0), in_structure=S(3, 2, 2)), ''),
         'M3c': ((), lambda: MoveAxisOperator(0, 2, in_structure=S(3, 2, 2)), ''),
+        'M3d': ((), lambda: MoveAxisOperator((2, 0), (1, 0), in_structure=S(2, 2, 3)), ''),
         'Rv3': ((), lambda: RavelOperator(1, 2, in_structure=S(2, 3, 2)), ''),
         'Rv': ((), lambda: RavelOperator(in_structure=S(2, 3)), ''),
         'Rs': ((), lambda: ReshapeOperator((3, -1), in_structure=S(2, 3)), ''),
